@@ -76,6 +76,7 @@ func c15Child(in json.RawMessage) (interface{}, error) {
 		}
 		opMu.Unlock()
 	}
+	freshDir(cs.Dir) // (a case can be run a second time by the child runner)
 	rg := newRig(rigOpts{Dir: cs.Dir, Merge: "happy", MemMerge: cs.MemMerge, Unsafe: cs.Unsafe, Seed: cs.Seed | 1, SegVer: cs.SegVer})
 	if cs.StatsInCB {
 		cb := rg.Sched.EventCallback()
